@@ -62,6 +62,7 @@ def store_targets():
         ('Attribute', lambda: P(ast.Attribute(value=opaque_expr('obj'), attr='a', ctx=ast.Store()))),
         ('Subscript', lambda: P(ast.Subscript(value=opaque_expr('obj'), slice=opaque_expr('idx'), ctx=ast.Store()))),
         ('Tuple-with-Attribute', lambda: P(ast.Tuple(elts=[N('t1'), P(ast.Attribute(value=opaque_expr('obj'), attr='a', ctx=ast.Store()))], ctx=ast.Store()))),
+        ('Starred-Tuple', lambda: P(ast.Tuple(elts=[P(ast.Starred(value=P(ast.Tuple(elts=[N('t1'), N('t2')], ctx=ast.Store())), ctx=ast.Store())), N('t3')], ctx=ast.Store()))),
         ('nested-Tuple', lambda: P(ast.Tuple(elts=[P(ast.Tuple(elts=[N('t1'), N('t2')], ctx=ast.Store())), N('t3')], ctx=ast.Store()))),
     ]
 
@@ -197,7 +198,7 @@ if bad:
     print('REPRODUCED: lint raises on valid programs: %%r' %% (bad,)); sys.exit(1)
 print('not reproduced')
 '''
-WITNESSES = ["class A:\n    def m(self, y):\n        for self.x in y:\n            pass\n", "x = [0]\nfor x[0] in [1]:\n    pass\n",
+WITNESSES = ["def f(y):\n    *(a, b), c = y\n    return a, b, c\n", "class A:\n    def m(self, y):\n        for self.x in y:\n            pass\n", "x = [0]\nfor x[0] in [1]:\n    pass\n",
              "def f(o, y):\n    with y as o.a:\n        pass\n", "def f(o, y):\n    return [1 for o.a in y]\n",
              "def f(c):\n    if c:\n        locals = 1\n    else:\n        locals = 2\n    return locals\n"]
 
@@ -210,7 +211,7 @@ def visitors_total(run):
     expression is analysed (gets a region)"""
     import supp.nast as N
     run.concretise = lambda model, ob: {'input': 'programs with attribute / subscript targets in for / with / comprehension',
-                                        'script': TOTAL_REPLAY % {'repo': core.REPO, 'srcs': WITNESSES[:4]}}
+                                        'script': TOTAL_REPLAY % {'repo': core.REPO, 'srcs': WITNESSES[:5]}}
     VC = make_visitor_class()
     names = sorted(n[6:] for n in vars(N.extract_visitor) if n.startswith('visit_') and hasattr(ast, n[6:]))
     # statements without a dedicated method go through generic_visit: included for completeness of the dispatch
@@ -474,5 +475,74 @@ def runtime_name_total(run):
             except Exception as e:
                 ok = False
             prove('attrs-is-a-table-of-runtime-names', ok, path=path)
+        run.case = None
+    core.explore(lambda: None, lambda p, out: go(p))
+
+
+BASES_REPLAY = '''import sys; sys.path.insert(0, %(repo)r)
+from supp.assistant import assist
+from supp.project import Project
+bad = []
+for src, pos in (("import os\\nclass A(os): pass\\nA().x\\n", (3, 5)), ("class P: pass\\nclass A(P()): pass\\nA().x\\n", (3, 5)),
+                 ("class X: pass\\nclass Y: pass\\nB = X\\nif 1:\\n    B = Y\\nclass A(B): pass\\nA().x\\n", (7, 5)), ("class A(len): pass\\nA.x\\n", (2, 3))):
+    try:
+        assist(Project(['/nonexistent']), src, pos, 'f.py')
+    except SyntaxError:
+        pass
+    except Exception as e:
+        bad.append((src, '%%s: %%s' %% (type(e).__name__, e)))
+if bad:
+    print('REPRODUCED: attribute completion on a class whose base is not a class: %%r' %% (bad,)); sys.exit(1)
+print('not reproduced')
+'''
+
+
+@harness(['C08', 'C06'], 'supp.name.ClassObject.{bases,_attrs} / InstanceValue._attrs[any value as base]')
+def bases_total(run):
+    """a base expression may evaluate to ANY value class of supp (a class, a runtime class, a function, a module, an instance, a value
+    merged from several branches, nothing): computing the class table and the instance table raises nothing"""
+    import supp.name as Nm
+    import supp.module as Md
+    import supp.scope as S
+    import supp.util as U
+    import sys
+    run.concretise = lambda model, ob: {'input': 'class A(os), class A(P()), a base bound in two branches', 'script': BASES_REPLAY % {'repo': core.REPO}}
+
+    def go(path):
+        top = S.SourceScope(U.Source('class K: pass\nclass A(base): pass\n', 'f.py'))
+        top.parent = None
+        knode, anode = top.source.tree.body
+        kscope = S.ClassScope(top, knode, top)
+
+        class Ctx(object):
+            project = None
+
+            def __init__(self, val):
+                self.val = val
+
+            def evaluate(self, node):
+                return self.val
+        kobj = Nm.ClassObject(Ctx(None), kscope)
+        sm = Md.SourceModule.__new__(Md.SourceModule)
+        sm.name, sm.filename, sm.declared_at = 'm', '/x/m.py', (1, 0)
+        sm.__dict__['scope'] = top
+        values = [('source class', kobj), ('runtime class', Nm.RuntimeName('dict', dict, True)), ('runtime function', Nm.RuntimeName('len', len, True)),
+                  ('runtime instance', Nm.RuntimeName('x', 5)), ('source instance', Nm.InstanceValue(Ctx(None), kobj)),
+                  ('runtime module', Md.ImportedModule(sys)), ('source module', sm), ('merged value', Nm.CompositeValue([kobj])),
+                  ('function object', Nm.FuncObject(S.FuncScope(top, ast.parse('def f(): pass').body[0], top))),
+                  ('attr object', Nm.AttrObject({})), ('unknown', None)]
+        for label, val in values:
+            run.case = 'base is a %s' % label
+            ascope = S.ClassScope(top, anode, top)
+            ctx = Ctx(val)
+            a = Nm.ClassObject(ctx, ascope)
+            for what, fn in (('class table', lambda: a._attrs), ('instance table', lambda: Nm.InstanceValue(ctx, a)._attrs)):
+                try:
+                    r = fn()
+                    exc = None
+                except Exception as e:
+                    r, exc = None, e
+                prove('%s-raises-nothing' % what.replace(' ', '-'), exc is None and isinstance(r, dict),
+                      clause='the %s of a class whose base evaluates to a %s is computed without raising [%s: %s]' % (what, label, type(exc).__name__, exc), path=path)
         run.case = None
     core.explore(lambda: None, lambda p, out: go(p))
